@@ -275,7 +275,9 @@ def gen_case(rng, index, tier):
                                     '20010203040506-01-01T00:00:00',
                                     '2001-01-01T00:00:99999999999',
                                     '2147483648-01-01T00:00:00',
-                                    '0000-00-00T00:00:00', '2001-01-01T00:00:00.5'])
+                                    '0000-00-00T00:00:00', '2001-01-01T00:00:00.5',
+                                    '2001-01-01T00:00:00Z', '2001-01-01T00:00:00+0200',
+                                    '2001-01-01T00:00:00+02:00'])
             kind = 'malformed'
         elif r < 0.93:
             kind = 'dup-valid-then-invalid'
